@@ -902,6 +902,310 @@ run_binding(int set, uint64_t idx, int bk)
 	(void)nl;
 }
 
+/* ---- stdin binding: whole lines through the needle search of the dconv binary ----
+ * One dconv process per format (plain stream mode: no -E, which would bypass the needle search, no -S).
+ * Lines: for every value the formatted text alone and embedded as "foo <text> bar".  The result of every
+ * line is reconstructed exactly: stderr names the rejected lines (in input order), stdout holds the
+ * accepted ones in order -- a rejected line cannot shift the comparison.  Expected: the library-level
+ * outcome of dt_strpdt(text, F); only lines whose text round-trips at library level are judged. */
+static int
+stdin_reduced(const struct fmt *f)
+{
+	/* quick tier: everything behind the first non-empty separator is plain (the needle and its offset
+	 * window depend only on the specifiers in front of the first literal) */
+	const struct dset *s = dsets + f->set;
+	int p[4], behind = 0;
+	get_perm(s->n, f->perm, p);
+	for (int i = 0; i < s->n; i++) {
+		if (behind && f->sp[p[i]]) {
+			return 0;
+		}
+		if (i + 1 < s->n) {
+			const char *sep = is_time_set(f->set) ? tseps[f->sep[i]] : dseps[f->sep[i]];
+			if (behind && f->sep[i]) {
+				return 0;
+			}
+			if (*sep) {
+				behind = 1;
+			}
+		}
+	}
+	return 1;
+}
+static void
+leading_label(const struct fmt *f, char *buf, size_t bsz)
+{
+	const struct dset *s = dsets + f->set;
+	int p[4];
+	size_t k = 0;
+	get_perm(s->n, f->perm, p);
+	buf[0] = '\0';
+	for (int i = 0; i < s->n; i++) {
+		k += (size_t)snprintf(buf + k, bsz - k, "%s", spellings[s->c[p[i]]][f->sp[p[i]]].spec);
+		if (i + 1 < s->n) {
+			const char *sep = is_time_set(f->set) ? tseps[f->sep[i]] : dseps[f->sep[i]];
+			if (*sep) {
+				snprintf(buf + k, bsz - k, " then '%s'", sep);
+				return;
+			}
+		}
+	}
+	snprintf(buf + k, bsz - k, " (no literal at all)");
+}
+
+
+/* in scope for the stdin leg (observe_at: "formats starting with a fixed-width field"): the needle search
+ * finds a value by a literal of the format and an offset window computed from the fields in front of it
+ * (calc_grep_atom), so the reading is: every field in front of the first literal is fixed-width numeric
+ * (incl. formats of such fields only), or the format starts with a month/weekday name directly followed by a
+ * literal (names have needle classes of their own).  Runs with names, Roman numerals, variable-width,
+ * blank-padded or suffixed fields in front of the first literal are outside (skipped, counted). */
+static int
+stdin_in_scope(const struct fmt *f)
+{
+	const struct dset *s = dsets + f->set;
+	int p[4];
+	get_perm(s->n, f->perm, p);
+	for (int i = 0; i < s->n; i++) {
+		enum wkind w = spellings[s->c[p[i]]][f->sp[p[i]]].w;
+		const char *sep = i + 1 < s->n ? (is_time_set(f->set) ? tseps[f->sep[i]] : dseps[f->sep[i]]) : "";
+		if (w == W_NAME && i == 0 && *sep) {
+			return 1;
+		} else if (w != W_FIX) {
+			return 0;
+		} else if (*sep) {
+			return 1;
+		}
+	}
+	return 1;
+}
+
+/* one line through the binary: 0 converted to EXP, 1 refused, 2 neither, 3 different value, -1 not applicable */
+static int
+cli_line_outcome(const struct fmt *f, enum vkind vk, const struct rc_day *p, int sec, int shape, const char *ofmt, const char *exp)
+{
+	char fs[64], text[128], cmd[1200], out[256] = "";
+	FILE *pp;
+	int k;
+	if (!fmt_enumerated(f) || !fmt_render(f, fs, sizeof(fs)) || !stdin_in_scope(f)) {
+		return -1;
+	}
+	k = roundtrip(fs, vk, p, sec, text, sizeof(text), NULL, 0);
+	if (k != RT_OK && k != RT_TRAIL) {
+		return -1;
+	}
+	snprintf(cmd, sizeof(cmd), "printf '%%s\\n' '%s%s%s' | LOCALE_FILE='%s/data/locale' '%s/src/dconv' --base %04d-01-01 -i '%s' -f '%s' 2>&1",
+		 shape ? "foo " : "", text, shape ? " bar" : "", ex.tree, ex.tree, W8[0].y0, fs, ofmt);
+	if ((pp = popen(cmd, "r")) == NULL) {
+		return -1;
+	}
+	if (fgets(out, sizeof(out), pp) == NULL) {
+		out[0] = '\0';
+	}
+	pclose(pp);
+	out[strcspn(out, "\n")] = '\0';
+	if (out[0] == '\0') {
+		return 2;
+	} else if (strstr(out, "cannot make sense of")) {
+		return 1;
+	}
+	return strcmp(out, exp) ? 3 : 0;
+}
+
+static void
+stdin_minimise(struct fmt *f, enum vkind vk, const struct rc_day *p, int sec, int shape, const char *ofmt, const char *exp, int kind)
+{
+	const struct dset *s = dsets + f->set;
+	struct fmt t;
+	for (int i = 0; i + 1 < s->n; i++) {
+		if (f->sep[i]) {
+			t = *f;
+			t.sep[i] = 0;
+			if (cli_line_outcome(&t, vk, p, sec, shape, ofmt, exp) == kind) {
+				*f = t;
+			}
+		}
+	}
+	for (int i = 0; i < s->n; i++) {
+		if (f->sp[i]) {
+			t = *f;
+			t.sp[i] = 0;
+			if (cli_line_outcome(&t, vk, p, sec, shape, ofmt, exp) == kind) {
+				*f = t;
+			}
+		}
+	}
+	if (f->perm) {
+		t = *f;
+		t.perm = 0;
+		if (cli_line_outcome(&t, vk, p, sec, shape, ofmt, exp) == kind) {
+			*f = t;
+		}
+	}
+}
+
+#define SB_MAXV	400
+static void
+run_stdin_binding(int set, uint64_t idx, int only_v, int only_shape)
+{
+	EX_CTR(c_sb, "stdin_binding_formats");
+	EX_CTR(c_sbl, "stdin_binding_lines");
+	EX_CTR(c_sbj, "stdin_binding_lines_judged");
+	EX_CTR(c_sbskip, "skipped:stdin line whose text does not round-trip at library level (judged there)");
+	const char *rundir = getenv("VERIF_RUNDIR");
+	const struct dset *s = dsets + set;
+	enum vkind vk = s->vk;
+	struct fmt f;
+	char fs[64], fin[600], fout[600], ferr[600], cmd[2600], key[320], cas[96], lead[96];
+	static char texts[SB_MAXV][96];
+	static int lk[SB_MAXV], vrd[SB_MAXV], vsec[SB_MAXV];
+	static char exps[SB_MAXV][32];
+	int nv = 0;
+	FILE *fi, *fo, *fe;
+	const char *ofmt = (vk == V_TIME || vk == V_TIME_M) ? "%T" : vk == V_EPOCH ? "%FT%T" : "%F";
+	char rej[256] = "", out[256], fmins[64];
+	int have_rej = 0;
+	struct fmt fmin[2][4];
+	int have_min[2][4] = {{0}};
+
+	fmt_from_index(set, idx, &f);
+	if (rundir == NULL || ex.tree == NULL || !fmt_render(&f, fs, sizeof(fs))) {
+		return;
+	}
+	++*c_sb;
+	leading_label(&f, lead, sizeof(lead));
+	{
+		char bt[32];
+		snprintf(bt, sizeof(bt), "%04d-01-01T00:00:00", W8[0].y0);
+		dt_set_base(dt_strpdt(bt, NULL, NULL));
+	}
+	/* values: every day of the leap year 2000 / the boundaries of the seconds of a day */
+	if (vk == V_TIME || vk == V_TIME_M) {
+		static const int ms[] = {0, 1, 9, 10, 59};
+		const struct rc_day *p = rc_get(rc_yearstart[2012] + 63);
+		for (int h = 0; h < 24; h++) {
+			for (int m = 0; m < 5; m++) {
+				for (int q = 0; q < (vk == V_TIME ? 3 : 1); q++) {
+					static const int ss[] = {0, 1, 59};
+					int sec = h * 3600 + ms[m] * 60 + ss[q];
+					vrd[nv] = p->rd;
+					vsec[nv] = sec;
+					snprintf(exps[nv], sizeof(exps[nv]), "%02d:%02d:%02d", sec / 3600, sec / 60 % 60, sec % 60);
+					nv++;
+				}
+			}
+		}
+	} else {
+		for (int rd = rc_yearstart[2000]; rd < rc_yearstart[2001]; rd++) {
+			const struct rc_day *p = rc_get(rd);
+			if (vk == V_BDATE && !p->isbd) {
+				continue;
+			}
+			vrd[nv] = rd;
+			vsec[nv] = 0;
+			if (vk == V_EPOCH) {
+				snprintf(exps[nv], sizeof(exps[nv]), "%04d-%02d-%02dT00:00:00", p->y, p->m, p->d);
+			} else {
+				snprintf(exps[nv], sizeof(exps[nv]), "%04d-%02d-%02d", p->y, p->m, p->d);
+			}
+			nv++;
+		}
+	}
+	snprintf(fin, sizeof(fin), "%s/c09s.%d.%llu.in", rundir, set, (unsigned long long)idx);
+	snprintf(fout, sizeof(fout), "%s/c09s.%d.%llu.out", rundir, set, (unsigned long long)idx);
+	snprintf(ferr, sizeof(ferr), "%s/c09s.%d.%llu.err", rundir, set, (unsigned long long)idx);
+	if ((fi = fopen(fin, "w")) == NULL) {
+		return;
+	}
+	for (int v = 0; v < nv; v++) {
+		lk[v] = roundtrip(fs, vk, rc_get(vrd[v]), vsec[v], texts[v], sizeof(texts[v]), NULL, 0);
+		fprintf(fi, "%s\nfoo %s bar\n", texts[v], texts[v]);
+	}
+	fclose(fi);
+	snprintf(cmd, sizeof(cmd), "LOCALE_FILE='%s/data/locale' '%s/src/dconv' --base %04d-01-01 -i '%s' -f '%s' < '%s' > '%s' 2> '%s'",
+		 ex.tree, ex.tree, W8[0].y0, fs, ofmt, fin, fout, ferr);
+	if (system(cmd) != 0) {
+		;	/* status 2 = some line was not understood */
+	}
+	fo = fopen(fout, "r");
+	fe = fopen(ferr, "r");
+	if (fo == NULL || fe == NULL) {
+		ex_viol("stdin-binding: no output from the binary", 0, "", cmd, "format '%s'", fs);
+		return;
+	}
+#define NEXT_REJ()	do { \
+		char l_[400]; \
+		have_rej = 0; \
+		while (fgets(l_, sizeof(l_), fe)) { \
+			char *a_ = strchr(l_, '`'), *b_ = strstr(l_, "' using the given input formats"); \
+			if (a_ && b_ && b_ > a_) { \
+				*b_ = '\0'; \
+				snprintf(rej, sizeof(rej), "%s", a_ + 1); \
+				have_rej = 1; \
+				break; \
+			} \
+		} \
+	} while (0)
+	NEXT_REJ();
+	for (int v = 0; v < nv; v++) {
+		for (int shape = 0; shape < 2; shape++) {
+			char line[160];
+			int rejected;
+			snprintf(line, sizeof(line), shape ? "foo %s bar" : "%s", texts[v]);
+			++*c_sbl;
+			if (have_rej && !strcmp(rej, line)) {
+				rejected = 1;
+				NEXT_REJ();
+			} else {
+				rejected = 0;
+				out[0] = '\0';
+				if (fgets(out, sizeof(out), fo)) {
+					out[strcspn(out, "\n")] = '\0';
+				} else {
+					rejected = 2;	/* neither printed nor refused */
+				}
+			}
+			if ((only_v >= 0 && (v != only_v || shape != only_shape))) {
+				continue;
+			}
+			if (lk[v] != RT_OK && lk[v] != RT_TRAIL) {
+				++*c_sbskip;
+				continue;
+			}
+			++*c_sbj;
+			if (rejected || strcmp(out, exps[v])) {
+				const struct rc_day *p = rc_get(vrd[v]);
+				int kind = rejected ? rejected : 3;
+				if (!have_min[shape][kind]) {
+					fmin[shape][kind] = f;
+					stdin_minimise(&fmin[shape][kind], vk, p, vsec[v], shape, ofmt, exps[v], kind);
+					have_min[shape][kind] = 1;
+				}
+				leading_label(&fmin[shape][kind], lead, sizeof(lead));
+				fmt_render(&fmin[shape][kind], fmins, sizeof(fmins));
+				snprintf(key, sizeof(key), "stdin-binding leading=%s (minimal failing format '%s') line=%s: %s", lead, fmins, shape ? "embedded (foo <text> bar)" : "text alone",
+					 rejected == 1 ? "line is refused" : rejected == 2 ? "line is neither converted nor refused" : "line is converted to a different value");
+				snprintf(cas, sizeof(cas), "S %d %llu %d %d", set, (unsigned long long)idx, v, shape);
+				snprintf(cmd, sizeof(cmd), "echo '%s' | dconv -i '%s' -f '%s'", line, fs, ofmt);
+				ex_viol(key, vk == V_TIME || vk == V_TIME_M ? (double)vsec[v] : (double)p->yday, cas, cmd,
+					"format '%s' (%s): the line '%s' on stdin gives '%s'%s; as an argument / at library level the text reads back as %s",
+					fs, s->name, line, rejected ? "" : out, rejected == 1 ? " (cannot make sense of)" : rejected == 2 ? " (nothing)" : "", exps[v]);
+				if (replay_verbose) {
+					printf("  VIOLATION [%s] line '%s' gives '%s'%s, expected %s\n", key, line, rejected ? "" : out, rejected ? " (refused)" : "", exps[v]);
+					replay_fails++;
+				}
+			} else if (replay_verbose) {
+				printf("  line '%s' gives '%s'\n", line, out);
+			}
+		}
+	}
+	fclose(fo);
+	fclose(fe);
+	unlink(fin);
+	unlink(fout);
+	unlink(ferr);
+}
+
 int
 main(int argc, char *argv[])
 {
@@ -925,6 +1229,8 @@ main(int argc, char *argv[])
 			run_defaults(p->y, p->y, k, rd, sec);
 		} else if (sscanf(ex.cas, "L %d %d %d", &li, &a, &k) == 3 && li >= 0 && li < nlocs) {
 			run_locale(li, a, k);
+		} else if (sscanf(ex.cas, "S %d %llu %d %d", &set, &idx, &rd, &sec) == 4 && set >= 0 && set < NDSETS && idx < set_size(set)) {
+			run_stdin_binding(set, idx, rd, sec);
 		} else if (sscanf(ex.cas, "B %d %llu %d", &set, &idx, &rd) == 3 && set >= 0 && set < NDSETS && idx < set_size(set) && rd >= 0 && rd < RC_NDAYS) {
 			/* library-level re-execution of that line; the binaries are compared in the full run */
 			run_format(set, idx, rd, 0);
@@ -952,6 +1258,10 @@ main(int argc, char *argv[])
 		ex_meta("bound", "%llu format coordinates (all, both tiers); days: %s; times: all 86,400 seconds; default outputs: %s; locales: all %d",
 			(unsigned long long)tot, ex.thorough ? "1997-2004, 1601-1608, 4088-4095, 1897-1904 (11,687 days)" : "1997-2004 (2,922 days; four-field formats: 2000 only)",
 			ex.thorough ? "all 911,280 days" : "1997-2004, 1601-1608, 4088-4095", nlocs);
+		ex_meta("stdin_binding", "the dconv binary in plain stream mode (needle search), one process per format, lines = the formatted text of every day of 2000 (business days for bizda) "
+			"resp. 360/120 boundary seconds of a day, alone and embedded as 'foo <text> bar'; per-line result reconstructed from stdout + the refused lines named on stderr; "
+			"expected = library-level dt_strpdt(text,F); formats: %s", ex.thorough ? "every format in scope" :
+			"every format whose fields behind the first non-empty separator are plain (needle and offset window depend only on what precedes the first literal)");
 		ex_meta("binding", "dconv -f F < days | dconv -i F -f %%F for the first 200 date formats (canonical order, plain and single-variant spellings first) over 1997-2004, text as stdin "
 			"line when F starts with a fixed-width field, else as argument; compared line by line with the library-level observation");
 	}
@@ -1010,6 +1320,29 @@ main(int argc, char *argv[])
 				if (ex_mine(slice) && !ex_expired()) {
 					run_binding(s, i, bk);
 				}
+			}
+		}
+	}
+	/* stdin binding: every format in scope (thorough) / every format whose fields behind the first
+	 * non-empty separator are plain (quick); all workers walk the coordinates, each runs its share */
+	for (int s = 0; s < NDSETS && !ex_expired(); s++) {
+		uint64_t n = set_size(s);
+		char fs[64];
+		for (uint64_t i = 0; i < n && !ex_expired(); i++) {
+			struct fmt f;
+			fmt_from_index(s, i, &f);
+			if (!fmt_enumerated(&f) || !fmt_render(&f, fs, sizeof(fs)) || (!ex.thorough && !stdin_reduced(&f))) {
+				continue;
+			}
+			if (!stdin_in_scope(&f)) {
+				EX_CTR(c_sbo, "skipped:stdin leg, format with a field other than fixed-width numeric in front of its first literal");
+				if (ex.worker == 0) {
+					++*c_sbo;
+				}
+				continue;
+			}
+			if (ex_mine(slice++)) {
+				run_stdin_binding(s, i, -1, -1);
 			}
 		}
 	}
